@@ -480,43 +480,117 @@ def check_uninit(prog, rep, rule='R-uninit'):
                             isinstance(t, ast.Name) and \
                             s.lineno > par.lineno:
                         views[t.id] = node
+        # views bound by assignment:  col = var[:, k]  (basic indexing), also
+        # inside a parallel assignment  k, col = n[i], var[:, i]
+        aviews = set()
+        unpaired = False
+
+        def _is_view(v_):
+            return isinstance(v_, ast.Subscript) and \
+                isinstance(v_.value, ast.Name) and v_.value.id == var
+        for node in ast.walk(fn.node):
+            if not (isinstance(node, ast.Assign) and len(node.targets) == 1
+                    and node.lineno > par.lineno):
+                continue
+            t_, v_ = node.targets[0], node.value
+            if isinstance(t_, ast.Name) and _is_view(v_):
+                aviews.add(t_.id)
+            elif isinstance(t_, ast.Tuple) and isinstance(v_, ast.Tuple) and \
+                    len(t_.elts) == len(v_.elts):
+                for a_, b_ in zip(t_.elts, v_.elts):
+                    if _is_view(b_):
+                        if isinstance(a_, ast.Name):
+                            aviews.add(a_.id)
+                        else:
+                            unpaired = True
+            elif any(_is_view(x) for x in ast.walk(v_)) and \
+                    isinstance(v_, (ast.Tuple, ast.List)):
+                unpaired = True
         stores = []
+        escapes = []
         for node in ast.walk(fn.node):
             if isinstance(node, (ast.Assign, ast.AugAssign)):
-                tg = node.targets if isinstance(node, ast.Assign) else \
+                tg0 = node.targets if isinstance(node, ast.Assign) else \
                     [node.target]
-                # chained assignment: a = b[i] = v
+                # chained assignment: a = b[i] = v ; parallel assignment:
+                # p, b[i] = f()
+                tg = []
+                for t in tg0:
+                    if isinstance(t, (ast.Tuple, ast.List)):
+                        tg.extend(x for x in ast.walk(t)
+                                  if isinstance(x, ast.Subscript) and
+                                  isinstance(x.ctx, ast.Store))
+                    else:
+                        tg.append(t)
                 for t in tg:
                     if isinstance(t, ast.Subscript) and \
                             isinstance(t.value, ast.Name) and \
                             node.lineno > par.lineno:
-                        if t.value.id == var:
+                        if t.value.id == var or t.value.id in aviews:
                             stores.append((node, t, None))
                         elif t.value.id in views and \
                                 _inside(views[t.value.id], node):
                             stores.append((node, t, views[t.value.id]))
+            if isinstance(node, ast.Call) and node is not call and \
+                    getattr(node, 'lineno', 0) > par.lineno:
+                # the buffer handed to a callee (out=..., a helper that fills
+                # it): it may be written there
+                for a_ in list(node.args) + [k.value for k in node.keywords]:
+                    base_ = a_
+                    while isinstance(base_, ast.Subscript):
+                        base_ = base_.value
+                    if isinstance(base_, ast.Name) and (
+                            base_.id == var or base_.id in aviews or
+                            base_.id in views):
+                        fname_ = prog.dotted(node.func) or ''
+                        if fname_ in ('len', 'numpy.shape', 'numpy.ndim'):
+                            continue
+                        is_out = any(k.arg == 'out' and k.value is a_
+                                     for k in node.keywords)
+                        callee_ = None
+                        try:
+                            from . import roles as _roles
+                            callee_ = _roles.callee_of(prog, mod, node)
+                        except Exception:
+                            callee_ = None
+                        if is_out or callee_ is not None:
+                            escapes.append(node)
         if not stores:
-            rep.violation(rule, where, construct,
-                          'np.empty array %s is never assigned' % var,
-                          line=call.lineno, file=mod.path)
+            if unpaired:
+                rep.unknown(rule, where, construct, 'views of %s are bound '
+                            'in a way that is not followed' % var)
+            elif escapes:
+                rep.unknown(rule, where, construct,
+                            'np.empty array %s is filled through a call '
+                            '(line %d): not followed' % (var,
+                                                         escapes[0].lineno))
+            else:
+                rep.violation(rule, where, construct,
+                              'np.empty array %s is never assigned' % var,
+                              line=call.lineno, file=mod.path)
             continue
         cond = []
+        pm = paths.parent_map(fn.node)
+
+        def _ancestors(n_):
+            out_ = []
+            while n_ in pm:
+                n_ = pm[n_]
+                out_.append(n_)
+            return out_
+        anc_create = set(map(id, _ancestors(par)))
         for st, t, viewloop in stores:
-            loop = _enclosing_loop(fn.node, st)
+            # loops that enclose the store but not the creation of the buffer
+            # (innermost first): a store in the SAME iteration as the
+            # np.empty is judged relative to that iteration
+            loops_ = [x for x in _ancestors(st)
+                      if isinstance(x, (ast.For, ast.While)) and
+                      id(x) not in anc_create]
             guard = None
-            if loop is not None:
-                outer = loop
-                # climb to the outermost loop that starts after the np.empty
-                pm = paths.parent_map(fn.node)
-                cur = loop
-                while cur in pm:
-                    cur = pm[cur]
-                    if isinstance(cur, (ast.For, ast.While)) and \
-                            cur.lineno > par.lineno:
-                        outer = cur
-                guard = _loop_has_conditional_skip_before(outer, st)
+            if loops_:
+                guard = _loop_has_conditional_skip_before(loops_[-1], st)
             cond.append(guard)
-        if all(g is not None for g in cond):
+        if all(g is not None for g in cond) and not escapes:
             g = cond[0]
             rep.violation(rule, where, construct,
                           'every store into the np.empty array %s is '
@@ -525,6 +599,10 @@ def check_uninit(prog, rep, rule='R-uninit'):
                           'uninitialised memory'
                           % (var, g.lineno, model.norm_src(mod, g.test)),
                           line=call.lineno, file=mod.path)
+            continue
+        if all(g is not None for g in cond):
+            rep.unknown(rule, where, construct, 'conditional stores plus a '
+                        'fill through a call: not followed')
             continue
         rep.ok(rule, where, construct,
                detail='%d store site(s), at least one unconditional'
